@@ -4,6 +4,7 @@ package c08
 import (
 	"time"
 
+	"github.com/vmware/go-ipfix/pkg/entities"
 	"github.com/vmware/go-ipfix/pkg/exporter"
 
 	"verifh/common"
@@ -48,7 +49,7 @@ func Check_SeqStep() {
 		t0 := time.Now()
 		var n int
 		if isData {
-			r := sx.Range("records", 1, 3)
+			r := sx.Range("records", 0, 3)
 			recs := make([][]common.Val, r)
 			for j := range recs {
 				recs[j] = []common.Val{common.Draw(common.KU32, "v", 0), common.Draw(common.KString, "s", 1)}
@@ -57,7 +58,15 @@ func Check_SeqStep() {
 			expected += uint32(r)
 			sx.Reach("data")
 		} else {
-			n, err = ep.SendSet(common.TemplateSet(tplID, kinds))
+			if sx.Choose("emptyTemplateSet", 2) == 1 {
+				// a template set without records is still one message
+				es := entities.NewSet(false)
+				sx.Assert(es.PrepareSet(entities.Template, tplID) == nil, "prepare")
+				n, err = ep.SendSet(es)
+				sx.Reach("empty-set")
+			} else {
+				n, err = ep.SendSet(common.TemplateSet(tplID, kinds))
+			}
 			sx.Reach("template")
 		}
 		t1 := time.Now()
